@@ -40,7 +40,7 @@ func TestVerifC07(t *testing.T) {
 		// all three spaces together (dispatch between the trackers)
 		c07HandlerPart("three-spaces", func(e explore.Env) *c07Cfg {
 			if e.Thorough() {
-				return &c07Cfg{U: [3]int{2, 2, 3}, ecn: none, forget: true, forgetOld: true, drops: true, ticks: true}
+				return &c07Cfg{U: [3]int{2, 1, 3}, ecn: none, forget: true, forgetOld: true, drops: true, ticks: true}
 			}
 			return &c07Cfg{U: [3]int{1, 1, 3}, ecn: none, forget: true, forgetOld: true, drops: true, ticks: true}
 		}, "all three spaces"),
